@@ -26,6 +26,32 @@ func structCell(p Ptr) *Struct {
 	return st
 }
 
+// lockCell: where a Mutex / RWMutex keeps "held" - the first integer word
+// reached through first fields (state int32; RWMutex{w Mutex; ...})
+func lockCell(p Ptr) *Cell {
+	st := structCell(p)
+	c := st.fields[0]
+	for {
+		s, ok := c.v.(*Struct)
+		if !ok {
+			return c
+		}
+		c = s.fields[0]
+	}
+}
+
+type poolItems []Value
+
+func poolCell(st *Struct) *Cell {
+	sty := st.typ.Underlying().(*types.Struct)
+	for i := 0; i < sty.NumFields(); i++ {
+		if b, ok := sty.Field(i).Type().Underlying().(*types.Basic); ok && b.Kind() == types.UnsafePointer {
+			return st.fields[i]
+		}
+	}
+	panic(pathAbort{"unsupported: layout of sync.Pool"})
+}
+
 func (in *Interp) syncMap(p Ptr, create bool) (*Map, *Cell) {
 	st := structCell(p)
 	sty := st.typ.Underlying().(*types.Struct)
@@ -34,7 +60,7 @@ func (in *Interp) syncMap(p Ptr, create bool) (*Map, *Cell) {
 			c := st.fields[i]
 			m, _ := c.v.(*Map)
 			if m == nil && create {
-				m = &Map{idx: map[string]int{}}
+				m = &Map{idx: map[string]int{}, epoch: in.epoch}
 				in.setCell(c, m)
 			}
 			return m, c
@@ -45,11 +71,44 @@ func (in *Interp) syncMap(p Ptr, create bool) (*Map, *Cell) {
 
 func (in *Interp) syncIntrinsic(fr *Frame, name string, args []Value) (Value, bool) {
 	switch name {
-	case "(*sync.Mutex).Lock", "(*sync.Mutex).Unlock", "(*sync.RWMutex).Lock", "(*sync.RWMutex).Unlock",
-		"(*sync.RWMutex).RLock", "(*sync.RWMutex).RUnlock":
-		in.note("model: sync locks are no-ops (sequential executor)")
+	case "(*sync.Mutex).Lock", "(*sync.RWMutex).Lock":
+		// one thread: a lock that is already held will never be released -
+		// natively the caller blocks for good
+		c := lockCell(args[0].(Ptr))
+		if held, _ := c.v.(int64); held != 0 {
+			in.events = append(in.events, "fatal: deadlock - Lock of a mutex that is already held (left locked by an earlier call) at "+in.where())
+			in.unwinding = true
+			panic(fatalStack{"deadlock"})
+		}
+		in.setCell(c, int64(1))
 		return nil, true
-	case "(*sync.Mutex).TryLock", "(*sync.RWMutex).TryLock", "(*sync.RWMutex).TryRLock":
+	case "(*sync.Mutex).Unlock", "(*sync.RWMutex).Unlock":
+		c := lockCell(args[0].(Ptr))
+		if held, _ := c.v.(int64); held == 0 {
+			in.events = append(in.events, "fatal: sync: unlock of unlocked mutex at "+in.where())
+			in.unwinding = true
+			panic(fatalStack{"unlock-of-unlocked-mutex"})
+		}
+		in.setCell(c, int64(0))
+		return nil, true
+	case "(*sync.RWMutex).RLock":
+		c := lockCell(args[0].(Ptr))
+		if held, _ := c.v.(int64); held == 1 {
+			in.events = append(in.events, "fatal: deadlock - RLock of a mutex that is write-locked at "+in.where())
+			in.unwinding = true
+			panic(fatalStack{"deadlock"})
+		}
+		return nil, true
+	case "(*sync.RWMutex).RUnlock":
+		return nil, true
+	case "(*sync.Mutex).TryLock", "(*sync.RWMutex).TryLock":
+		c := lockCell(args[0].(Ptr))
+		if held, _ := c.v.(int64); held != 0 {
+			return false, true
+		}
+		in.setCell(c, int64(1))
+		return true, true
+	case "(*sync.RWMutex).TryRLock":
 		return true, true
 	case "(*sync.Once).Do":
 		st := structCell(args[0].(Ptr))
@@ -127,8 +186,16 @@ func (in *Interp) syncIntrinsic(fr *Frame, name string, args []Value) (Value, bo
 		in.setCell(c, (*Map)(nil))
 		return nil, true
 	case "(*sync.Pool).Get":
-		// a pool may always come back empty
+		// a pool may hand back any object put into it earlier, or none: both
+		// are explored when something has been put (the items live in the
+		// pool's first pointer-typed field, undo-logged)
 		st := structCell(args[0].(Ptr))
+		c := poolCell(st)
+		if items, _ := c.v.(poolItems); len(items) > 0 && in.choose("sync.Pool.Get-reuses", 2) == 1 {
+			it := items[len(items)-1]
+			in.setCell(c, poolItems(append([]Value(nil), items[:len(items)-1]...)))
+			return it, true
+		}
 		sty := st.typ.Underlying().(*types.Struct)
 		for i := 0; i < sty.NumFields(); i++ {
 			if sty.Field(i).Name() == "New" {
@@ -139,6 +206,10 @@ func (in *Interp) syncIntrinsic(fr *Frame, name string, args []Value) (Value, bo
 		}
 		return Iface{}, true
 	case "(*sync.Pool).Put":
+		st := structCell(args[0].(Ptr))
+		c := poolCell(st)
+		items, _ := c.v.(poolItems)
+		in.setCell(c, poolItems(append(append([]Value(nil), items...), args[1])))
 		return nil, true
 	}
 	// sync/atomic on plain words: one thread, so these are loads and stores
